@@ -41,9 +41,9 @@ func normPath(p string) string {
 }
 
 type pathCtx struct {
-	w    *World
-	fi   *FuncInfo
-	seen map[types.Object]bool
+	w           *World
+	fi          *FuncInfo
+	seen        map[types.Object]bool
 	keepContext bool // do not drop variables of run-constant "context" types
 	noParams    bool // do not expand parameters through call sites
 	cuts        int  // number of expansions cut because the variable was already being expanded
